@@ -242,3 +242,47 @@ def carried_locals(loop: ast.For, ignore: Set[str] = frozenset()) -> List[Tuple[
                 seen.add(u.id)
                 out.append((u.id, getattr(u, "lineno", loop.lineno)))
     return out
+
+
+def loop_locals_used_after(func_node) -> List[Tuple[str, ast.For, ast.stmt]]:
+    """(name, loop, statement) for every local that is bound only inside a `for` loop (its target or an assignment in its body)
+    and read by a statement that follows the loop in the same block: that statement sees the value of the last iteration only."""
+    out = []
+
+    def names_bound(loop: ast.For) -> Set[str]:
+        s = {n.id for n in ast.walk(loop.target) if isinstance(n, ast.Name)}
+        for st in loop.body:
+            for n in ast.walk(st):
+                if isinstance(n, ast.Name) and isinstance(n.ctx, ast.Store):
+                    s.add(n.id)
+        return s
+
+    def block(stmts: List[ast.stmt], bound_before: Set[str]):
+        seen_bound = set(bound_before)
+        for i, st in enumerate(stmts):
+            if isinstance(st, ast.For):
+                inner = names_bound(st) - seen_bound
+                for later in stmts[i + 1:]:
+                    for n in ast.walk(later):
+                        if isinstance(n, ast.Name) and isinstance(n.ctx, ast.Load) and n.id in inner:
+                            out.append((n.id, st, later))
+                            inner = inner - {n.id}
+                    # a later plain re-assignment ends the exposure
+                    for n in ast.walk(later):
+                        if isinstance(n, ast.Name) and isinstance(n.ctx, ast.Store):
+                            inner = inner - {n.id}
+            for fld in ("body", "orelse", "finalbody"):
+                sub = getattr(st, fld, None)
+                if isinstance(sub, list) and sub and isinstance(sub[0], ast.stmt):
+                    block(sub, set(seen_bound))
+            if isinstance(st, ast.Try):
+                for h in st.handlers:
+                    block(h.body, set(seen_bound))
+            if not isinstance(st, ast.For):
+                for n in ast.walk(st):
+                    if isinstance(n, ast.Name) and isinstance(n.ctx, ast.Store):
+                        seen_bound.add(n.id)
+
+    a = func_node.args
+    block(func_node.body, {x.arg for x in a.posonlyargs + a.args + a.kwonlyargs})
+    return out
